@@ -55,8 +55,8 @@ impl GenCfg {
         b(pool[src.idx(if self.edgy { pool.len() } else { 4 })])
     }
     pub fn score(&self, src: &mut Src) -> Vec<u8> {
-        let pool = ["0", "1", "-1", "2", "10", "1.5", "-2.5", "inf", "-inf", "+inf", "nan", "abc", "1e3", "3.0"];
-        let n = if self.edgy { pool.len() } else if self.floats { 7 } else { 5 };
+        let pool = ["0", "1", "-1", "-0", "2", "10", "1.5", "-2.5", "inf", "-inf", "+inf", "nan", "abc", "1e3", "3.0"];
+        let n = if self.edgy { pool.len() } else if self.floats { 8 } else { 6 };
         b(pool[src.idx(n)])
     }
     pub fn ttl_secs(&self, src: &mut Src) -> Vec<u8> {
